@@ -155,9 +155,12 @@ type script struct {
 	Dim      int     `json:"dim"` // 3: triangles, 2: segments
 	Sink     string  `json:"sink"`
 	Batches  [][]int `json:"batches"`
-	Yield    []int   `json:"yield"`            // producer p yields the processor after every Yield[p]-th write (0: never)
-	NilEmpty bool    `json:"nil_empty"`        // empty batches are nil slices (as mcToTriangles returns) rather than empty ones
-	Sliver   int     `json:"sliver,omitempty"` // triangles only: every Sliver-th item is a needle (see sliverOf); 0: none
+	Yield    []int   `json:"yield"`     // producer p yields the processor after every Yield[p]-th write (0: never)
+	NilEmpty bool    `json:"nil_empty"` // empty batches are nil slices (as mcToTriangles returns) rather than empty ones
+	// EachCloses: with several producers, every producer flushes with Close when IT has finished (while the
+	// others may still be writing) in addition to the final Close after all have finished
+	EachCloses bool `json:"each_closes,omitempty"`
+	Sliver     int  `json:"sliver,omitempty"` // triangles only: every Sliver-th item is a needle (see sliverOf); 0: none
 }
 
 func (s *script) totals() (bases []int, total int) {
@@ -215,6 +218,9 @@ func (r *scripted3) Render(_ sdf.SDF3, out sdf.Triangle3Writer) {
 				runtime.Gosched()
 			}
 		}
+		if r.s.EachCloses && len(r.s.Batches) > 1 {
+			out.Close()
+		}
 	}
 	if len(r.s.Batches) == 1 {
 		run(0)
@@ -255,6 +261,9 @@ func (r *scripted2) Render(_ sdf.SDF2, out sdf.Line2Writer) {
 			if y := r.s.Yield[p]; y > 0 && (j+1)%y == 0 {
 				runtime.Gosched()
 			}
+		}
+		if r.s.EachCloses && len(r.s.Batches) > 1 {
+			out.Close()
 		}
 	}
 	if len(r.s.Batches) == 1 {
@@ -714,6 +723,9 @@ func drawScript(t *rapid.T, dim int) (*script, []string) {
 		np = rapid.IntRange(2, 8).Draw(t, "producers")
 	}
 	s.NilEmpty = rapid.Bool().Draw(t, "nil-empty")
+	if np > 1 {
+		s.EachCloses = rapid.IntRange(0, 2).Draw(t, "each-producer-closes") == 0
+	}
 	if dim == 3 && rapid.IntRange(0, 2).Draw(t, "needles") == 0 {
 		s.Sliver = rapid.SampledFrom([]int{1, 2, 3, 7, 50}).Draw(t, "every")
 	}
@@ -793,6 +805,9 @@ func classify(s *script, T int) (nt bool, labels []string) {
 		nt = true
 	}
 	labels = append(labels, fmt.Sprintf("producers=%d", len(s.Batches)))
+	if len(s.Batches) > 1 {
+		labels = append(labels, fmt.Sprintf("each-producer-closes=%v", s.EachCloses))
+	}
 	if s.Dim == 3 {
 		labels = append(labels, fmt.Sprintf("has-needle-triangles=%v", s.Sliver > 0 && total > 0))
 	}
@@ -812,7 +827,7 @@ func runScript(t ev.TB, rec *ev.Rec, s *script, extra []string) {
 	for i := range labels {
 		labels[i] = pre + labels[i]
 	}
-	rec.Case(nt, ev.Key(s.Dim, s.Sink, s.Batches, s.Yield, s.NilEmpty, s.Sliver), labels...)
+	rec.Case(nt, ev.Key(s.Dim, s.Sink, s.Batches, s.Yield, s.NilEmpty, s.Sliver, s.EachCloses), labels...)
 	_, total := s.totals()
 	if total <= 600 {
 		rec.Sample(pre+s.Sink, s)
